@@ -1,20 +1,41 @@
 """
-Leg menus: per symmetry a short list of sector dictionaries {charge: dim} chosen so that pairs of
-entries are equal / overlapping / nested / disjoint.  Charges are tuples (length NSYM).
+Leg alphabets.  Per symmetry one *universe* {charge: dim} and a menu of charge subsets, so that any two
+menu entries are consistent (same dim for a common charge) and pairs of entries are equal / overlapping /
+nested / disjoint.  CONFLICT is a sector dictionary that disagrees with the universe on a dimension
+(contract-violation cases).  Charges are tuples of length NSYM.
 """
-MENU = {
-    'dense': [{(): 2}, {(): 1}, {(): 3}],
-    'Z2': [{(0,): 1, (1,): 2}, {(1,): 2}, {(0,): 2}, {(0,): 2, (1,): 1}],
-    'Z3': [{(0,): 1, (1,): 2, (2,): 1}, {(1,): 1, (2,): 2}, {(0,): 2}, {(0,): 1, (1,): 2}],
-    'U1': [{(0,): 1, (1,): 2}, {(-1,): 1, (0,): 2, (1,): 1}, {(1,): 2}, {(0,): 1, (2,): 1}],
-    'Z2xU1': [{(0, 0): 1, (1, 1): 2}, {(0, -1): 1, (1, 0): 2, (1, 1): 1}, {(1, 1): 2}, {(0, 0): 1, (0, 2): 1}],
-    'U1xU1': [{(0, 0): 1, (1, 0): 2, (0, 1): 1}, {(-1, 0): 1, (0, 0): 2, (1, 1): 1}, {(1, 0): 2},
-              {(0, 0): 1, (1, 1): 2}],
-    'U1xU1xZ2': [{(0, 0, 0): 1, (1, 0, 1): 2, (0, 1, 1): 1}, {(0, 0, 0): 2, (1, 1, 0): 1, (1, 0, 1): 1},
-                 {(1, 0, 1): 2}, {(0, 0, 0): 1, (1, 1, 0): 2}],
+UNIVERSE = {
+    'dense': {(): 2},
+    'Z2': {(0,): 1, (1,): 2},
+    'Z3': {(0,): 1, (1,): 2, (2,): 1},
+    'U1': {(-1,): 1, (0,): 2, (1,): 3, (2,): 1},
+    'Z2xU1': {(0, 0): 1, (1, 1): 2, (1, 0): 1, (0, 2): 2, (0, -1): 1},
+    'U1xU1': {(0, 0): 1, (1, 0): 2, (0, 1): 1, (1, 1): 2, (-1, 0): 1},
+    'U1xU1xZ2': {(0, 0, 0): 1, (1, 0, 1): 2, (0, 1, 1): 1, (1, 1, 0): 2},
 }
 
-# non-zero tensor charges to try (first = n1, second = n2)
+SUBSETS = {
+    'dense': [[()]],
+    'Z2': [[(0,), (1,)], [(1,)], [(0,)]],
+    'Z3': [[(0,), (1,), (2,)], [(1,), (2,)], [(0,)], [(0,), (1,)]],
+    'U1': [[(0,), (1,)], [(-1,), (0,), (1,)], [(1,)], [(0,), (2,)]],
+    'Z2xU1': [[(0, 0), (1, 1)], [(0, -1), (1, 0), (1, 1)], [(1, 1)], [(0, 0), (0, 2)]],
+    'U1xU1': [[(0, 0), (1, 0), (0, 1)], [(-1, 0), (0, 0), (1, 1)], [(1, 0)], [(0, 0), (1, 1)]],
+    'U1xU1xZ2': [[(0, 0, 0), (1, 0, 1), (0, 1, 1)], [(0, 0, 0), (1, 1, 0), (1, 0, 1)], [(1, 0, 1)],
+                 [(0, 0, 0), (1, 1, 0)]],
+}
+
+CONFLICT = {
+    'dense': {(): 3},
+    'Z2': {(0,): 2, (1,): 2},
+    'Z3': {(0,): 1, (1,): 1},
+    'U1': {(0,): 1, (1,): 3},
+    'Z2xU1': {(0, 0): 2, (1, 1): 2},
+    'U1xU1': {(0, 0): 1, (1, 0): 1},
+    'U1xU1xZ2': {(0, 0, 0): 2, (1, 0, 1): 2},
+}
+
+# tensor charges to try: index 0 is zero, 1 = n1, 2 = n2
 CHARGES = {
     'dense': [()],
     'Z2': [(0,), (1,)],
@@ -26,9 +47,21 @@ CHARGES = {
 }
 
 
+def _mk():
+    return {sym: [dict((t, UNIVERSE[sym][t]) for t in sub) for sub in subs] for sym, subs in SUBSETS.items()}
+
+
+MENU = _mk()
+MENU['dense'] = [{(): 2}, {(): 1}, {(): 3}]   # dense legs of different size are never consistent
+
+
 def menu(sym, size=None):
     m = MENU[sym]
     return m if size is None else m[:size]
+
+
+def msize(sym, cap):
+    return min(cap, len(MENU[sym]))
 
 
 def charges(sym, k=None):
@@ -36,10 +69,25 @@ def charges(sym, k=None):
     return c if k is None else c[:k]
 
 
+def relation(ta, tb):
+    ka, kb = set(ta), set(tb)
+    if ka == kb:
+        return 'equal'
+    if not (ka & kb):
+        return 'disjoint'
+    if ka <= kb or kb <= ka:
+        return 'nested'
+    return 'overlapping'
+
+
+def consistent(ta, tb):
+    return all(ta[k] == tb[k] for k in ta.keys() & tb.keys())
+
+
 def make_leg(cfg, s, tD):
     import yastn
     t = sorted(tD)
     sym = cfg if hasattr(cfg, 'SYM_ID') else cfg.sym
     if sym.NSYM == 0:
-        return yastn.Leg(cfg, s=s, D=(tD[()],))
+        return yastn.Leg(cfg, s=s, D=(tD[()],) if tD else ())
     return yastn.Leg(cfg, s=s, t=t, D=[tD[x] for x in t])
